@@ -569,6 +569,231 @@ def value_key(scn: dict) -> str:
     return json.dumps({k: scn[k] for k in ("kind", "sizes", "order", "K", "m", "members") if k in scn}, sort_keys=True)
 
 
+# ----------------------------------------------------------------------------- histories of ONE transform object
+def row_weights_class():
+    """Aggregator w(m)^T . matrix with the spec's WVec(m) = (2 r - 3)_r : defined for every row count, so that one
+    Aggregate object can receive batches of different row counts; integer, rows distinguishable."""
+    from torchjd.aggregation import Aggregator
+
+    class RowWeights(Aggregator):
+        def __init__(self):
+            super().__init__()
+            self.seen: list[list[float]] = []
+
+        def forward(self, matrix):
+            w = torch.tensor([2.0 * r - 3.0 for r in range(1, matrix.shape[0] + 1)], dtype=matrix.dtype)
+            self.seen.append(w.tolist())
+            return w @ matrix
+
+    return RowWeights
+
+
+def hist_chunks(rng: random.Random, every: bool) -> list:
+    if every:
+        return list(CHUNKS)
+    first = rng.choice(CHUNKS)
+    return [first, rng.choice([c for c in CHUNKS if c != first])]
+
+
+def replay_hist_call(item) -> dict:
+    """HIST scenario of TransformValues.tla: ONE Jac object per chunk size, ONE Grad object, ONE composed object
+    Aggregate << Jac and ONE composed Jac << Jac per separating cut are applied to the batches of the history in
+    turn (retain_graph=True); application n must return what the specification gives for batch n alone."""
+    import torchjd.autojac._transform as T
+    scn, menu, seed, idx, every_chunk, dtype = item
+    rng = random.Random(seed * 1000003 + 7 * idx + 1)
+    torch.manual_seed(seed + idx)
+    run = CallRun(scn | {"m": scn["ms"][0]}, menu, rng, dtype=dtype)
+    B, outs, ins = run.B, run.outs, run.ins
+    apps = [{"m": a["m"], "ct": fmap(a["ct"]), "jac": fmap(a["jac"]), "agg": fmap(a["agg"]), "w": a["w"]} for a in scn["apps"]]
+    tag = f"outs={outs} ins={ins} shapes={[list(s) for s in run.shapes]} {str(dtype)[6:]} row counts of the applications {scn['ms']}"
+
+    def nodes(op, arg, ids):
+        return pres(rng, op, arg, [B.node(x) for x in ids])
+
+    def guarded(what, fn):
+        try:
+            fn()
+        except Exception as e:                      # noqa: BLE001
+            run.fails.append(f"{what} {tag}: raised {type(e).__name__}: {str(e)[:120]}")
+
+    # one Jac object per chunk size
+    for chunk in hist_chunks(rng, every_chunk):
+        def jac_history(chunk=chunk):
+            tr = T.Jac(nodes("jac", "outputs", outs), nodes("jac", "inputs", ins), chunk, retain_graph=True)
+            for n, a in enumerate(apps, 1):
+                res = tr(run.jac_input(a["ct"]))
+                run.evals += 1
+                run.compare_jac(res, ins, a["jac"], a["m"], f"application {n} of ONE Jac(chunk_size={chunk}) object")
+        guarded(f"history of one Jac(chunk_size={chunk}) object", jac_history)
+
+    # one Grad object, applied to every row of every batch
+    def grad_history():
+        tr = T.Grad(nodes("grad", "outputs", outs), nodes("grad", "inputs", ins), retain_graph=True)
+        k = 0
+        for a in apps:
+            for r in range(a["m"]):
+                k += 1
+                res = tr(T.Gradients(shuffled_dict([(B.node(o), t_of(a["ct"][o][r], run.shapes[o - 1], dtype)) for o in outs], rng)))
+                run.evals += 1
+                for i in ins:
+                    v = res[B.node(i)]
+                    exp = [float(x) for x in a["jac"][i][r]]
+                    if tuple(v.shape) != tuple(run.shapes[i - 1]) or v.detach().reshape(-1).tolist() != exp or dtype_fail(v, dtype):
+                        run.fails.append(f"application {k} of ONE Grad object {tag}: gradient w.r.t. node {i} is "
+                                         f"{v.detach().reshape(-1).tolist()} (shape {tuple(v.shape)}, {str(v.dtype)[6:]}), expected {exp}")
+    guarded("history of one Grad object", grad_history)
+
+    # one composed object Aggregate(w(m)) << Jac
+    def agg_history():
+        chunk = rng.choice(CHUNKS)
+        agg = row_weights_class()()
+        tr = T.Aggregate(agg, pres(rng, "agg", "key_order", [B.node(i) for i in ins])) << \
+            T.Jac(nodes("jac", "outputs", outs), nodes("jac", "inputs", ins), chunk, retain_graph=True)
+        for n, a in enumerate(apps, 1):
+            res = tr(run.jac_input(a["ct"]))
+            run.evals += 1
+            what = f"application {n} of ONE (Aggregate << Jac(chunk_size={chunk})) object {tag}"
+            if len(agg.seen) != n or agg.seen[-1] != [float(x) for x in a["w"]]:
+                run.fails.append(f"{what}: the aggregator was called {len(agg.seen)} times in {n} applications / received a matrix of "
+                                 f"{len(agg.seen[-1]) if agg.seen else 0} rows for a batch of {a['m']} cotangent rows")
+                return
+            if type(res) is not T.Gradients or {id(k) for k in res.keys()} != {id(B.node(i)) for i in ins}:
+                run.fails.append(f"{what}: result is a {type(res).__name__} over other keys than the inputs")
+                return
+            for i in ins:
+                v = res[B.node(i)]
+                exp = [float(x) for x in a["agg"][i]]
+                if tuple(v.shape) != tuple(run.shapes[i - 1]) or v.detach().reshape(-1).tolist() != exp or dtype_fail(v, dtype):
+                    run.fails.append(f"{what}: gradient of node {i} is {v.detach().reshape(-1).tolist()} (shape {tuple(v.shape)}, "
+                                     f"{str(v.dtype)[6:]}), expected {exp}")
+    guarded("history of one Aggregate << Jac object", agg_history)
+
+    # one composed object Jac(mid -> ins) << Jac(outs -> mid) per separating cut
+    for mid in scn["cuts"]:
+        mid = [int(x) for x in mid]
+
+        def chain_history(mid=mid):
+            c1, c2 = rng.choice(CHUNKS), rng.choice(CHUNKS)
+            tr = T.Jac(nodes("jac", "outputs", mid), nodes("jac", "inputs", ins), c2, retain_graph=True) << \
+                T.Jac(nodes("jac", "outputs", outs), nodes("jac", "inputs", mid), c1, retain_graph=True)
+            for n, a in enumerate(apps, 1):
+                res = tr(run.jac_input(a["ct"]))
+                run.evals += 1
+                run.compare_jac(res, ins, a["jac"], a["m"], f"application {n} of ONE (Jac(mid->ins, {c2}) << Jac(outs->mid, {c1})) object through {mid}")
+        guarded(f"history of one chained Jac object through {mid}", chain_history)
+    return {"fails": [f if tag in f else f"{f} [{tag}]" for f in run.fails[:4]], "evals": run.evals}
+
+
+def hist_call_key(scn: dict) -> str:
+    import json
+    return json.dumps([scn["prog"], scn["outs"], scn["ins"], scn["ms"]], sort_keys=True)
+
+
+def check_hist_value(scn: dict, shapes, rng: random.Random, dtype) -> tuple[list[str], int]:
+    """HVAL scenario: ONE value-transform object (or composition) applied to the inputs of the history in turn."""
+    import torchjd.autojac._transform as T
+    obj, sizes = scn["obj"], scn["sizes"]
+    n_keys = len(sizes)
+    keys = {k: torch.zeros(shapes[k - 1], dtype=dtype) + k for k in range(1, n_keys + 1)}
+    fails: list[str] = []
+    used: list[str] = []
+    evals = 0
+    desc = {k: scn[k] for k in ("order", "order2", "K", "ks", "ms") if k in scn}
+    tag = f"{obj} {desc} sizes={sizes} shapes={[list(s) for s in shapes]} {str(dtype)[6:]}"
+
+    def how():
+        u = [x for x in used if not x.endswith("=list")]
+        return " [" + ",".join(u) + "]" if u else ""
+
+    def cmp(res, exp: dict, cls, rows: bool, n: int):
+        what = f"application {n} of ONE object {tag}{how()}"
+        if type(res) is not cls:
+            fails.append(f"{what}: result is a {type(res).__name__}, expected {cls.__name__}")
+        if {id(k) for k in res.keys()} != {id(keys[k]) for k in exp}:
+            fails.append(f"{what}: result keys differ from the expected keys {sorted(exp)}")
+            return
+        for k, e in exp.items():
+            v = res[keys[k]]
+            if rows:
+                ee = [[float(x) for x in r] for r in e]
+                ok = tuple(v.shape) == (len(e),) + tuple(shapes[k - 1]) and flat_rows(v, len(e)) == ee
+            else:
+                ee = [float(x) for x in e]
+                ok = tuple(v.shape) == tuple(shapes[k - 1]) and v.detach().reshape(-1).tolist() == ee
+            if not ok:
+                fails.append(f"{what}: key {k} has value {v.detach().reshape(v.shape[0], -1).tolist() if rows and v.dim() else v.detach().reshape(-1).tolist()} "
+                             f"(shape {tuple(v.shape)}), expected {ee}")
+            if dtype_fail(v, dtype):
+                fails.append(f"{what}: the value of key {k} {dtype_fail(v, dtype)}")
+
+    def gdict(inp):
+        return T.Gradients(shuffled_dict([(keys[k], t_of(v, shapes[k - 1], dtype)) for k, v in fmap(inp).items()], rng))
+
+    def jdict(inp):
+        return T.Jacobians(shuffled_dict([(keys[k], rows_of(v, shapes[k - 1], dtype)) for k, v in fmap(inp).items()], rng))
+
+    def expected(a):
+        return fmap(a["expected"]) if a["expected"] else {}
+
+    allkeys = list(keys.values())
+    agg = row_weights_class()()
+    if obj == "init":
+        tr, feed, cls, rows = T.Init(pres(rng, "init", "values", allkeys, used)), (lambda a: T.EmptyTensorDict()), T.Gradients, False
+    elif obj == "select":
+        tr = T.Select(pres(rng, "select", "keys", [keys[int(k)] for k in scn["K"]], used), pres(rng, "select", "required_keys", allkeys, used))
+        feed, cls, rows = (lambda a: gdict(a["input"])), T.Gradients, False
+    elif obj == "diag":
+        tr = T.Diagonalize(pres(rng, "diag", "considered", [keys[int(k)] for k in scn["order"]], used))
+        feed, cls, rows = (lambda a: gdict(a["input"])), T.Jacobians, True
+    elif obj == "diaginit":
+        tr = T.Diagonalize(pres(rng, "diag", "considered", [keys[int(k)] for k in scn["order"]], used)) << T.Init(pres(rng, "init", "values", allkeys, used))
+        feed, cls, rows = (lambda a: T.EmptyTensorDict()), T.Jacobians, True
+    elif obj == "agg":
+        tr = T.Aggregate(agg, pres(rng, "agg", "key_order", [keys[int(k)] for k in scn["order"]], used))
+        feed, cls, rows = (lambda a: jdict(a["input"])), T.Gradients, False
+    elif obj == "stack":
+        members = [T.Select(pres(rng, "select", "keys", [keys[int(k)] for k in ks], used), pres(rng, "select", "required_keys", allkeys, used))
+                   for ks in scn["ks"]]
+        tr = T.Stack(pres(rng, "stack", "transforms", members, used))
+        feed, cls, rows = (lambda a: gdict(a["input"])), T.Jacobians, True
+    elif obj == "aggdiag":
+        tr = T.Aggregate(agg, pres(rng, "agg", "key_order", [keys[int(k)] for k in scn["order"]], used)) << \
+            T.Diagonalize(pres(rng, "diag", "considered", [keys[int(k)] for k in scn["order2"]], used))
+        feed, cls, rows = (lambda a: gdict(a["input"])), T.Gradients, False
+    else:
+        raise ValueError(obj)
+    for n, a in enumerate(scn["apps"], 1):
+        res = tr(feed(a))
+        evals += 1
+        cmp(res, expected(a), cls, rows, n)
+        if obj in ("agg", "aggdiag") and (len(agg.seen) != n or agg.seen[-1] != [float(x) for x in a["w"]]):
+            fails.append(f"application {n} of ONE object {tag}{how()}: the aggregator was called {len(agg.seen)} times in {n} applications / "
+                         f"received {len(agg.seen[-1]) if agg.seen else 0} rows, the jacobians have {len(a['w'])}")
+    return fails, evals
+
+
+def replay_hist_value(item) -> dict:
+    scn, menu, seed, idx, limit, dtypes = item
+    rng = random.Random(seed * 1000003 + 11 * idx + 5)
+    fails, evals = [], 0
+    for shapes in shape_combos(scn["sizes"], menu, rng, limit):
+        for dt in dtypes:
+            try:
+                f, e = check_hist_value(scn, shapes, rng, dt)
+            except Exception as ex:                 # noqa: BLE001
+                f, e = [f"history of one {scn['obj']} object sizes={scn['sizes']} shapes={[list(s) for s in shapes]}: raised "
+                        f"{type(ex).__name__}: {str(ex)[:160]}"], 1
+            fails += f
+            evals += e
+    return {"fails": fails[:4], "evals": evals}
+
+
+def hist_value_key(scn: dict) -> str:
+    import json
+    return json.dumps({k: scn[k] for k in ("obj", "sizes", "order", "order2", "K", "ks", "ms") if k in scn}, sort_keys=True)
+
+
 # ----------------------------------------------------------------------------- C->S: random episodes
 def random_program(rng: random.Random, max_leaves=3, max_ops=6) -> list[dict]:
     nl = rng.randint(1, max_leaves)
@@ -797,3 +1022,137 @@ def record_value_episode(rng: random.Random, ep: int, menu) -> dict:
     except Exception as ex:                         # noqa: BLE001
         e["raised"] = f"{type(ex).__name__}: {str(ex)[:160]}"
     return e
+
+
+def record_hist_episode(rng: random.Random, ep: int, menu) -> dict | None:
+    """C->S history: ONE real transform object applied to 2..3 random inputs in a row (batches of different row
+    counts, any chunk size); every application is logged (input, result, element types) and judged by
+    TraceTransformValues.tla against the specification's function of that input alone."""
+    import torchjd.autojac._transform as T
+    obj = rng.choice(["jac", "jac", "jac", "grad", "aggjac", "diag", "stack", "agg"])
+    n_apps = rng.choice([2, 3, 3])
+    used: list[str] = []
+    e: dict = {"ep": ep, "kind": "hist", "obj": obj, "prec": 0, "rdt": [], "apps": []}
+    if obj in ("jac", "grad", "aggjac"):
+        prog = random_program(rng)
+        rg = rg_flags(prog)
+        diff = [i + 1 for i, nd in enumerate(prog) if nd["op"] != "leaf" and rg[i]]
+        if not diff:
+            return None
+        outs = rng.sample(diff, min(len(diff), rng.choice([1, 1, 2, 3])))
+        cands = [i + 1 for i in range(len(prog)) if rg[i] and (i + 1) not in outs]
+        if not cands:
+            return None
+        ins = rng.sample(cands, min(len(cands), rng.choice([1, 2, 2, 3])))
+        B0 = Built(prog, rng=random.Random(0))
+        sizes = [t.numel() for t in B0.t]
+        if any(abs(v) > 60 for vals in B0.flat_vals() for v in vals):
+            return None
+        shapes = pick_shapes(sizes, menu, rng)
+        ms = [1] * n_apps if obj == "grad" else [rng.choice([1, 2, 3, 4]) for _ in range(n_apps)]
+        if obj != "grad" and len(set(ms)) == 1 and rng.random() < 0.7:
+            ms[-1] = ms[-1] % 4 + 1                 # mostly batches of different row counts
+        cts = [{o: [[rng.randint(-3, 3) for _ in range(sizes[o - 1])] for _ in range(m)] for o in outs} for m in ms]
+        dt = torch.float64 if rng.random() < 0.6 else torch.float32
+        if dt == torch.float32 and max(abs_bound(prog, shapes, outs, ins, ct) for ct in cts) * 16 >= 2 ** 23:
+            dt = torch.float64                      # float32 would not be exact (aggjac: the weights of 4 rows sum to 10 in magnitude)
+        B = Built(prog, shapes=shapes, dtype=dt)
+        chunk = rng.choice(CHUNKS)
+        e |= {"prog": prog, "outs": outs, "ins": ins, "chunk": chunk or 0, "ms": ms, "dt": str(dt)[6:],
+              "meta": {"shapes": [list(s) for s in shapes], "presented": used}}
+        try:
+            agg = row_weights_class()()
+            if obj == "grad":
+                tr = T.Grad(pres(rng, "grad", "outputs", [B.node(o) for o in outs], used), pres(rng, "grad", "inputs", [B.node(i) for i in ins], used),
+                            retain_graph=True)
+            else:
+                tr = T.Jac(pres(rng, "jac", "outputs", [B.node(o) for o in outs], used), pres(rng, "jac", "inputs", [B.node(i) for i in ins], used),
+                           chunk, retain_graph=True)
+                if obj == "aggjac":
+                    tr = T.Aggregate(agg, pres(rng, "agg", "key_order", [B.node(i) for i in ins], used)) << tr
+            for m, ct in zip(ms, cts):
+                if obj == "grad":
+                    res = tr(T.Gradients(shuffled_dict([(B.node(o), t_of(ct[o][0], shapes[o - 1], dt)) for o in outs], rng)))
+                    got = [[res[B.node(i)].detach().reshape(-1).tolist()] for i in ins]
+                    ints = [[as_int_list(r) for r in g] for g in got]
+                    bad = any(r is None for g in ints for r in g)
+                elif obj == "jac":
+                    res = tr(T.Jacobians(shuffled_dict([(B.node(o), rows_of(ct[o], shapes[o - 1], dt)) for o in outs], rng)))
+                    got = [flat_rows(res[B.node(i)], res[B.node(i)].shape[0]) for i in ins]
+                    ints = [[as_int_list(r) for r in g] for g in got]
+                    bad = any(r is None for g in ints for r in g)
+                else:
+                    res = tr(T.Jacobians(shuffled_dict([(B.node(o), rows_of(ct[o], shapes[o - 1], dt)) for o in outs], rng)))
+                    ints = [as_int_list(res[B.node(i)].detach().reshape(-1).tolist()) for i in ins]
+                    bad = any(r is None for r in ints)
+                app = {"m": m, "ct": [ct[o] for o in outs], "result": [] if bad else ints, "rdt": [str(res[B.node(i)].dtype)[6:] for i in ins]}
+                if obj == "aggjac":
+                    app["w"] = as_int_list(agg.seen[-1])
+                if bad:
+                    e["nonint"] = True
+                e["apps"].append(app)
+        except Exception as ex:                     # noqa: BLE001
+            e["raised"] = f"{type(ex).__name__}: {str(ex)[:160]}"
+        if not e.get("raised") and not e.get("nonint") and any(abs(x) >= 2 ** 22 for a in e["apps"] for x in _ints_in(a["result"])):
+            return None
+        return e
+    n = rng.choice([1, 2, 2, 3, 3])
+    sizes = [rng.choice([1, 1, 2, 2, 3, 4]) for _ in range(n)]
+    shapes = pick_shapes(sizes, menu, rng)
+    dt = rng.choice([torch.float64, torch.float32])
+    keys = {k: torch.zeros(shapes[k - 1], dtype=dt) for k in range(1, n + 1)}
+    allkeys = list(keys.values())
+    order = list(range(1, n + 1))
+    rng.shuffle(order)
+    e |= {"sizes": sizes, "dt": str(dt)[6:], "meta": {"shapes": [list(s) for s in shapes], "presented": used}}
+    try:
+        if obj == "diag":
+            e["order"] = order
+            tr = T.Diagonalize(pres(rng, "diag", "considered", [keys[k] for k in order], used))
+            for _ in range(n_apps):
+                g = [[rng.randint(-4, 4) for _ in range(sizes[k])] for k in range(n)]
+                res = tr(T.Gradients(shuffled_dict([(keys[k], t_of(g[k - 1], shapes[k - 1], dt)) for k in order], rng)))
+                result = [[as_int_list(r) for r in flat_rows(res[keys[k]], res[keys[k]].shape[0])] for k in range(1, n + 1)]
+                e["apps"].append({"input": g, "result": result, "rdt": [str(res[keys[k]].dtype)[6:] for k in range(1, n + 1)]})
+        elif obj == "stack":
+            c = rng.choice([1, 2, 3])
+            ks = [[k for k in range(1, n + 1) if rng.random() < 0.6] for _ in range(c)]
+            e["ks"] = ks
+            tr = T.Stack(pres(rng, "stack", "transforms",
+                              [T.Select(pres(rng, "select", "keys", [keys[k] for k in kk], used), pres(rng, "select", "required_keys", allkeys, used))
+                               for kk in ks], used))
+            for _ in range(n_apps):
+                g = [[rng.randint(-4, 4) for _ in range(sizes[k])] for k in range(n)]
+                res = tr(T.Gradients(shuffled_dict([(keys[k], t_of(g[k - 1], shapes[k - 1], dt)) for k in order], rng)))
+                present_keys = [k for k in range(1, n + 1) if any(keys[k] is kk for kk in res.keys())]
+                e["apps"].append({"input": g,
+                                  "result": [{"k": k, "rows": [as_int_list(r) for r in flat_rows(res[keys[k]], res[keys[k]].shape[0])]} for k in present_keys],
+                                  "rdt": [str(res[keys[k]].dtype)[6:] for k in present_keys]})
+        else:
+            e["order"] = order
+            agg = row_weights_class()()
+            tr = T.Aggregate(agg, pres(rng, "agg", "key_order", [keys[k] for k in order], used))
+            ms = [rng.choice([1, 2, 3, 4]) for _ in range(n_apps)]
+            if len(set(ms)) == 1 and rng.random() < 0.7:
+                ms[-1] = ms[-1] % 4 + 1
+            e["ms"] = ms
+            for m in ms:
+                J = [[[rng.randint(-3, 3) for _ in range(sizes[k])] for _ in range(m)] for k in range(n)]
+                res = tr(T.Jacobians(shuffled_dict([(keys[k], rows_of(J[k - 1], shapes[k - 1], dt)) for k in order], rng)))
+                e["apps"].append({"m": m, "w": as_int_list(agg.seen[-1]), "input": J,
+                                  "result": [as_int_list(res[keys[k]].detach().reshape(-1).tolist()) for k in range(1, n + 1)],
+                                  "rdt": [str(res[keys[k]].dtype)[6:] for k in range(1, n + 1)]})
+    except Exception as ex:                         # noqa: BLE001
+        e["raised"] = f"{type(ex).__name__}: {str(ex)[:160]}"
+    return e
+
+
+def _ints_in(x):
+    if isinstance(x, (int, float)):
+        yield x
+    elif isinstance(x, dict):
+        for v in x.values():
+            yield from _ints_in(v)
+    elif isinstance(x, (list, tuple)):
+        for v in x:
+            yield from _ints_in(v)
